@@ -312,6 +312,9 @@ fn check_obs(m: &Model, st: &VState, o: &StepObs, want: bool, cmp: Cmp, who: &st
     if !want {
         return;
     }
+    if let Some((what, msg)) = &o.self_bad {
+        bad.push((format!("{}::{}/self-consistency/{}", who, via, what), msg.clone()));
+    }
     if !o.reborrow_same {
         bad.push((format!("{}::{}/reborrow-differs", who, via), format!("(&view_mut).view() at {:?} shows another position (prefix/value/sides/entries) than the mutable view itself", o.prefix)));
     }
